@@ -145,6 +145,11 @@ pub mod octets {
         }
 
         #[verifier::external_body]
+        pub fn with_slice(b: &'a mut [u8]) -> (r: OctetsMut<'a>)
+            ensures r.out() == Seq::<u8>::empty(), r.cap_spec() == old(b)@.len(),
+        { unimplemented!() }
+
+        #[verifier::external_body]
         pub fn cap(&self) -> (n: usize)
             ensures n == self.cap_spec(),
         { unimplemented!() }
